@@ -257,7 +257,7 @@ class Master(loader.Loader):
         if not servers:
             # If not specified, reload all.
             # Use union of servers in the model and in zookeeper.
-            servers = (set(self.servers.keys()) ^
+            servers = (set(self.servers.keys()) |
                        set(self.backend.list(z.SERVERS)))
         self.reload_servers(servers)
 
